@@ -1003,4 +1003,34 @@ theorem parse_not_panic (env : Env) (o : Opts) (h2 : o.twoOptionals = false) (sp
         · rw [hr]; simp
 
 
+/-! ### counting separators -/
+
+theorem termSyn_slash_count (b : Bounds) (e : List Char) (t : Term) (h : TermSyn b e t) :
+    e.count '/' ≤ 1 := by
+  obtain ⟨baseS, stepS, he, hno, _, hstep⟩ := h
+  have h0 : baseS.count '/' = 0 := List.count_eq_zero.2 hno
+  cases stepS with
+  | none => subst he; simp [stepSuffix, h0]
+  | some st =>
+    cases hs : t.step with
+    | none => rw [hs] at hstep; simp [StepSyn] at hstep
+    | some n =>
+      rw [hs] at hstep
+      have h1 : st.count '/' = 0 := List.count_eq_zero.2 (numeral_no_slash st n hstep)
+      subst he
+      simp [stepSuffix, List.count_append, h0, h1]
+
+theorem baseSyn_hyphen_count (b : Bounds) (s : List Char) (base : Base) (h : BaseSyn b s base) :
+    s.count '-' ≤ 1 := by
+  cases base with
+  | star => rcases h with h | h <;> subst h <;> decide
+  | single n => have := List.count_eq_zero.2 h.2.1; omega
+  | range lo hi =>
+    obtain ⟨a, c, hs, _, ha, hc, _, _⟩ := h
+    have h1 := List.count_eq_zero.2 ha
+    have h2 := List.count_eq_zero.2 hc
+    subst hs
+    simp [List.count_append, h1, h2]
+
+
 end Kit.Cron
